@@ -6,6 +6,9 @@ cd /verif
 tier=${1:-quick}; miss=0
 for d in seeded/*/; do
   name=$(basename $d); prop=${name%%-*}
+  if grep -q '"superseded_by"' $d/meta.json; then
+    echo "SUPERSEDED $name (neutralised by a later repair of /repo, see meta.json)"; continue
+  fi
   out=$(tools/seedrun.sh $d/patch.diff $prop $tier 2>&1)
   if echo "$out" | grep -q "^exit=1" && echo "$out" | grep -q "VIOLATION property=$prop"; then
     echo "CAUGHT $name $(echo "$out" | grep -m1 VIOLATION | sed 's/.*label=\([^ ]*\).*/\1/')"
